@@ -65,7 +65,8 @@ Logged ==
     \/ IsEvent("Dial") /\ nd + 1 = Ev.d /\ \E c \in Calls : DialInvoke(c)
     \/ IsEvent("DialRet") /\ IF Ev.ok THEN DialOk(Ev.d) ELSE DialErr(Ev.d)
     \/ IsEvent("SetDeadline") /\ \E c \in Calls : cur[c] = Ev.x /\ ArmQ(c, Ev.k)
-    \/ IsEvent("WriteReq") /\ cur[Ev.c] = Ev.x /\ WriteReq(Ev.c)
+    \* wok: the bytes written are exactly the framed query of call c (also on a retry)
+    \/ IsEvent("WriteReq") /\ Ev.wok /\ cur[Ev.c] = Ev.x /\ WriteReq(Ev.c)
     \/ IsEvent("WriteRet") /\ cur[Ev.c] = Ev.x /\ IF Ev.ok THEN WriteOk(Ev.c) ELSE WriteErr(Ev.c)
     \/ IsEvent("ReadRet") /\ Ev.k = "reply" /\ srvq[Ev.x] # None /\ srvq[Ev.x][1] = Ev.c /\ ServerReply(Ev.x)
     \/ IsEvent("ReadRet") /\ Ev.k = "surplus" /\ Surplus(Ev.x)
